@@ -337,4 +337,288 @@ theorem compress_sem (A : List String) (ρ : Env) :
       · exact hsyms
       · exact ih.2.1 se hse
 
+/-! ## renaming with the callee prefix -/
+
+theorem pref_inj (p : String) {a b : String} (h : pref p a = pref p b) : a = b := by
+  unfold pref at h
+  rw [String.append_assoc, String.append_assoc] at h
+  exact (String.append_right_inj "_").mp ((String.append_right_inj p).mp h)
+
+mutual
+theorem syms_renameSim (p : String) : ∀ e : BExp, (renameSim p e).syms = e.syms.map (pref p)
+  | .tt => by simp [renameSim, BExp.subst, BExp.syms]
+  | .ff => by simp [renameSim, BExp.subst, BExp.syms]
+  | .sym n => by simp [renameSim, BExp.subst, BExp.syms]
+  | .not e => by
+      have := syms_renameSim p e
+      simp only [renameSim] at this
+      simp [renameSim, BExp.subst, BExp.syms, this]
+  | .and l => by
+      have := symsList_renameSim p l
+      simp [renameSim, BExp.subst, BExp.syms, this]
+  | .or l => by
+      have := symsList_renameSim p l
+      simp [renameSim, BExp.subst, BExp.syms, this]
+  | .xor l => by
+      have := symsList_renameSim p l
+      simp [renameSim, BExp.subst, BExp.syms, this]
+  | .ite c t e => by
+      have h1 := syms_renameSim p c
+      have h2 := syms_renameSim p t
+      have h3 := syms_renameSim p e
+      simp only [renameSim] at h1 h2 h3
+      simp [renameSim, BExp.subst, BExp.syms, h1, h2, h3]
+  | .imp a b => by
+      have h1 := syms_renameSim p a
+      have h2 := syms_renameSim p b
+      simp only [renameSim] at h1 h2
+      simp [renameSim, BExp.subst, BExp.syms, h1, h2]
+theorem symsList_renameSim (p : String) : ∀ l : List BExp,
+    symsList (substList (fun n => some (.sym (pref p n))) l) = (symsList l).map (pref p)
+  | [] => by simp [substList, symsList]
+  | e :: es => by
+      have h1 := syms_renameSim p e
+      simp only [renameSim] at h1
+      simp [substList, symsList, h1, symsList_renameSim p es]
+end
+
+theorem eval_renameSim (p : String) (e : BExp) (ρ : Env) :
+    (renameSim p e).eval ρ = e.eval (fun n => ρ (pref p n)) := by
+  unfold renameSim
+  rw [eval_subst]
+  rfl
+
+/-- the renamed definition list of the repaired code -/
+def renamed (p : String) (l : Defs) : Defs := l.map (fun se => (pref p se.1, renameSim p se.2))
+
+theorem renameAll_none (q : Quirks) (hq : q.renameSequential = false) (p : String) :
+    ∀ (os : List (List String)) (l : Defs), renameAll q p os l = renamed p l
+  | _, [] => by simp [renameAll, renamed]
+  | [], se :: t => by
+      simp [renameAll, renamed, expRename, hq]
+      exact renameAll_none q hq p [] t
+  | o :: os, se :: t => by
+      simp [renameAll, renamed, expRename, hq]
+      exact renameAll_none q hq p os t
+
+theorem Ok_renamed (p : String) (A : List String) : ∀ (l : Defs) (K : List String),
+    Ok A K l → Ok (A.map (pref p)) (K.map (pref p)) (renamed p l)
+  | [], _, _ => by simp [renamed, Ok]
+  | (s, e) :: t, K, ⟨h1, h2, h3, h4⟩ => by
+      have ih := Ok_renamed p A t (s :: K) h4
+      simp only [renamed, List.map_cons, Ok] at ih ⊢
+      refine ⟨?_, ?_, ?_, ih⟩
+      · intro h
+        obtain ⟨a, ha, hp⟩ := List.mem_map.mp h
+        exact h1 (pref_inj p hp ▸ ha)
+      · intro h
+        obtain ⟨a, ha, hp⟩ := List.mem_map.mp h
+        exact h2 (pref_inj p hp ▸ ha)
+      · intro n hn
+        rw [syms_renameSim] at hn
+        obtain ⟨m, hm, rfl⟩ := List.mem_map.mp hn
+        rcases h3 m hm with h | h
+        · exact Or.inl (List.mem_map.mpr ⟨m, h, rfl⟩)
+        · exact Or.inr (List.mem_map.mpr ⟨m, h, rfl⟩)
+
+theorem vals_renamed (p : String) : ∀ (l : Defs) (σ : Env),
+    vals σ (renamed p l) = vals (fun n => σ (pref p n)) l
+  | [], _ => by simp [renamed, vals]
+  | (s, e) :: t, σ => by
+      have ih := vals_renamed p t (upd σ (pref p s) (e.eval fun n => σ (pref p n)))
+      simp only [renamed, List.map_cons, vals, eval_renameSim] at ih ⊢
+      rw [ih]
+      congr 2
+      funext n
+      by_cases h : n = s
+      · simp [upd, h]
+      · have : pref p n ≠ pref p s := fun hh => h (pref_inj p hh)
+        simp [upd, h, this]
+
+/-! ## meaning of definition lists -/
+
+theorem Ok_fresh (A : List String) : ∀ (l : Defs) (K : List String), Ok A K l →
+    ∀ se ∈ l, se.1 ∉ K
+  | [], _, _, se, h => by simp at h
+  | (s, e) :: t, K, ⟨_, h2, _, h4⟩, se, h => by
+      rcases List.mem_cons.mp h with rfl | h
+      · exact h2
+      · exact fun hk => Ok_fresh A t (s :: K) h4 se h (List.mem_cons_of_mem _ hk)
+
+theorem run_not_def : ∀ (t : Defs) (σ : Env) (s : String), (∀ se ∈ t, se.1 ≠ s) → run σ t s = σ s
+  | [], _, _, _ => by simp [run]
+  | (s', e) :: t, σ, s, h => by
+      simp only [run]
+      rw [run_not_def t _ s (fun se hse => h se (List.mem_cons_of_mem _ hse))]
+      have : s ≠ s' := fun hh => h (s', e) (by simp) hh.symm
+      simp [upd, this]
+
+theorem vals_eq_run (A : List String) : ∀ (l : Defs) (K : List String) (σ : Env), Ok A K l →
+    vals σ l = l.map (fun se => run σ l se.1)
+  | [], _, _, _ => by simp [vals]
+  | (s, e) :: t, K, σ, hok => by
+      have hfresh := Ok_fresh A t (s :: K) hok.2.2.2
+      simp only [vals, List.map_cons, run]
+      rw [vals_eq_run A t (s :: K) _ hok.2.2.2]
+      congr 1
+      rw [run_not_def t _ s (fun se hse heq => hfresh se hse (heq ▸ List.mem_cons_self))]
+      simp [upd]
+
+theorem vals_congr (A : List String) : ∀ (l : Defs) (K : List String) (σ σ' : Env), Ok A K l →
+    (∀ n, n ∈ A ∨ n ∈ K → σ n = σ' n) → vals σ l = vals σ' l
+  | [], _, _, _, _, _ => by simp [vals]
+  | (s, e) :: t, K, σ, σ', ⟨_, _, h3, h4⟩, h => by
+      have he : e.eval σ = e.eval σ' := eval_congr _ _ e (fun n hn => h n (h3 n hn))
+      simp only [vals]
+      rw [he, vals_congr A t (s :: K) (upd σ s (e.eval σ')) (upd σ' s (e.eval σ')) h4]
+      intro n hn
+      by_cases hs : n = s
+      · simp [upd, hs]
+      · simp only [upd, hs, if_false]
+        rcases hn with hn | hn
+        · exact h n (Or.inl hn)
+        · rcases List.mem_cons.mp hn with hn | hn
+          · exact absurd hn hs
+          · exact h n (Or.inr hn)
+
+theorem lastN_map {α β} (f : α → β) (n : Nat) (l : List α) : lastN n (l.map f) = (lastN n l).map f := by
+  unfold lastN
+  split <;> simp [List.map_drop]
+
+/-! ## the call site -/
+
+theorem foldl_dictSet_fresh : ∀ (pairs d : Defs),
+    (pairs.map (·.1)).Pairwise (· ≠ ·) →
+    (∀ kv ∈ d, ∀ kv' ∈ pairs, kv.1 ≠ kv'.1) →
+    pairs.foldl (fun d kv => dictSet d kv.1 kv.2) d = d ++ pairs
+  | [], d, _, _ => by simp
+  | (k, v) :: ps, d, hp, hd => by
+      simp only [List.map_cons, List.pairwise_cons] at hp
+      simp only [List.foldl_cons]
+      rw [dictSet_fresh d k v (fun kv hkv => hd kv hkv (k, v) (by simp)),
+        foldl_dictSet_fresh ps _ hp.2]
+      · simp
+      · intro kv hkv kv' hkv'
+        rcases List.mem_append.mp hkv with h | h
+        · exact hd kv h kv' (List.mem_cons_of_mem _ hkv')
+        · simp at h; subst h
+          exact hp.1 kv'.1 (List.mem_map.mpr ⟨kv', hkv', rfl⟩)
+
+theorem mkDict_eq (pairs : Defs) (h : (pairs.map (·.1)).Pairwise (· ≠ ·)) : mkDict pairs = pairs := by
+  unfold mkDict
+  rw [foldl_dictSet_fresh pairs [] h (by simp)]
+  simp
+
+theorem compEnv_zip (ρ : Env) : ∀ (bits : List String) (acts : List BExp), bits.length = acts.length →
+    ∀ n ∈ bits, compEnv (lookup (bits.zip acts)) ρ n = zipEnv bits (acts.map (·.eval ρ)) n
+  | [], _, _, n, h => by simp at h
+  | b :: bs, [], hl, _, _ => by simp at hl
+  | b :: bs, a :: as, hl, n, hn => by
+      simp only [List.zip_cons_cons, List.map_cons, zipEnv, compEnv, lookup]
+      by_cases hb : n = b
+      · simp [hb]
+      · simp only [hb, if_false]
+        have hn' : n ∈ bs := by
+          rcases List.mem_cons.mp hn with h | h
+          · exact absurd h hb
+          · exact h
+        exact compEnv_zip ρ bs as (by simpa using hl) n hn'
+
+theorem Shaped_length : ∀ (fas : List Arg) (as : List Actual), Shaped fas as → as.length = fas.length
+  | [], [], _ => rfl
+  | [], _ :: _, h => by simp [Shaped] at h
+  | _ :: _, [], h => by simp [Shaped] at h
+  | fa :: fas, a :: as, h => by simp [Shaped_length fas as h.2]
+
+theorem allPairs_shaped (q : Quirks) (hq : q.argIndexFromName = false) :
+    ∀ (fas : List Arg) (as : List Actual), Shaped fas as →
+      allPairs q fas as = .ok ((fas.map (·.bitvec)).flatten.zip (actualBits as)) ∧
+      (fas.map (·.bitvec)).flatten.length = (actualBits as).length
+  | [], [], _ => by simp [allPairs, actualBits]
+  | [], _ :: _, h => by simp [Shaped] at h
+  | _ :: _, [], h => by simp [Shaped] at h
+  | fa :: fas, a :: as, ⟨h1, h2⟩ => by
+      obtain ⟨ih1, ih2⟩ := allPairs_shaped q hq fas as h2
+      have hp : actualPairs q fa a = .ok (fa.bitvec.zip a.bits) := by
+        simp [actualPairs, hq, h1]
+      unfold actualBits at ih1 ih2 ⊢
+      simp only [allPairs, hp, ih1, List.map_cons, List.flatten_cons]
+      rw [List.zip_append h1.symm]
+      simp [List.length_append, ih2, h1]
+
+theorem Shaped_rename (p : String) : ∀ (fas : List Arg) (as : List Actual), Shaped fas as →
+    Shaped (fas.map (argRename p)) as
+  | [], [], _ => by simp [Shaped]
+  | [], _ :: _, h => by simp [Shaped] at h
+  | _ :: _, [], h => by simp [Shaped] at h
+  | fa :: fas, a :: as, ⟨h1, h2⟩ => by
+      simp only [List.map_cons, Shaped]
+      exact ⟨by simp [argRename, h1], Shaped_rename p fas as h2⟩
+
+theorem argBits_rename (p : String) (args : List Arg) :
+    ((args.map (argRename p)).map (·.bitvec)).flatten = ((args.map (·.bitvec)).flatten).map (pref p) := by
+  induction args with
+  | nil => simp
+  | cons a t ih =>
+      simp only [List.map_cons, List.flatten_cons, List.map_append]
+      rw [ih]; rfl
+
+theorem zipEnv_map (p : String) : ∀ (bits : List String) (vs : List Bool) (n : String),
+    zipEnv (bits.map (pref p)) vs (pref p n) = zipEnv bits vs n
+  | [], _, _ => by simp [zipEnv]
+  | _ :: _, [], _ => by simp [zipEnv]
+  | b :: bs, v :: vs, n => by
+      simp only [List.map_cons, zipEnv]
+      by_cases h : n = b
+      · simp [h]
+      · have : pref p n ≠ pref p b := fun hh => h (pref_inj p hh)
+        simp [h, this, zipEnv_map p bs vs n]
+
+theorem lookup_zip_some : ∀ (bits : List String) (acts : List BExp), bits.length = acts.length →
+    ∀ n ∈ bits, ∃ r ∈ acts, lookup (bits.zip acts) n = some r
+  | [], _, _, n, h => by simp at h
+  | b :: bs, [], hl, _, _ => by simp at hl
+  | b :: bs, a :: as, hl, n, hn => by
+      simp only [List.zip_cons_cons, lookup]
+      by_cases hb : n = b
+      · exact ⟨a, by simp, by simp [hb]⟩
+      · have hn' : n ∈ bs := by
+          rcases List.mem_cons.mp hn with h | h
+          · exact absurd h hb
+          · exact h
+        obtain ⟨r, hr, hl'⟩ := lookup_zip_some bs as (by simpa using hl) n hn'
+        exact ⟨r, List.mem_cons_of_mem _ hr, by simp [hb, hl']⟩
+
+theorem mem_lastN {α} (n : Nat) (l : List α) (x : α) (h : x ∈ lastN n l) : x ∈ l := by
+  unfold lastN at h
+  split at h
+  · exact h
+  · exact List.mem_of_mem_drop h
+
+/-- what the repaired `bind_function` + call site compute, spelled out -/
+theorem call_none_eq (q : Quirks) (hq1 : q.argIndexFromName = false) (hq2 : q.subsSequential = false)
+    (hq3 : q.renameSequential = false)
+    (f : LogicFun) (ords : List (List String)) (actuals : List Actual)
+    (hwf : WF f) (hsh : Shaped f.args actuals) :
+    callSite q (bindFunction q ords f) actuals =
+      .ok ((lastN f.ret.bitvec.length (compressGo [] (renamed f.name f.exps))).map
+        (fun se => simSubst (((argBits f).map (pref f.name)).zip (actualBits actuals)) se.2))
+    ∧ ((argBits f).map (pref f.name)).length = (actualBits actuals).length := by
+  have hlen := Shaped_length _ _ (Shaped_rename f.name _ _ hsh)
+  obtain ⟨hp, hl⟩ := allPairs_shaped q hq1 _ _ (Shaped_rename f.name _ _ hsh)
+  rw [argBits_rename] at hp hl
+  have hl' : ((argBits f).map (pref f.name)).length = (actualBits actuals).length := hl
+  have hp' : allPairs q (List.map (argRename f.name) f.args) actuals =
+      .ok (((argBits f).map (pref f.name)).zip (actualBits actuals)) := hp
+  have hkeys : ((((argBits f).map (pref f.name)).zip (actualBits actuals)).map (·.1)).Pairwise (· ≠ ·) := by
+    have := @List.map_fst_zip _ _ ((argBits f).map (pref f.name)) (actualBits actuals) (Nat.le_of_eq hl')
+    show List.Pairwise _ (List.map Prod.fst _)
+    rw [this]
+    exact List.Pairwise.map _ (fun a b hab hh => hab (pref_inj _ hh)) hwf.argsNodup
+  refine ⟨?_, hl'⟩
+  unfold callSite
+  simp only [bindFunction, renameAll_none q hq3, hlen, bne_self_eq_false, Bool.false_eq_true, if_false]
+  rw [hp']
+  simp only [callSubst, hq2, Bool.false_eq_true, if_false, mkDict_eq _ hkeys]
+
 end QV.Call
